@@ -87,7 +87,7 @@ def verify(pid, x, srcroot=None, store_as=None):
     return 0
 
 
-def run_scratch(name, ids, tier):
+def run_scratch(name, ids, tier, record=False):
     """Development variant: the change is applied to a scratch worktree and the checks run with
     VERIF_REPO pointing there, so several seeded changes can be tried at once; nothing is recorded."""
     d = os.path.join(SEEDED, name)
@@ -106,6 +106,10 @@ def run_scratch(name, ids, tier):
             rc, out = sh([os.path.join(VERIF, "check"), pid, "--tier", tier], cwd=VERIF, env=env, timeout=14400)
             lines = [l for l in out.split("\n") if l.startswith(("VIOLATION", "HARNESS"))]
             print(name, pid, tier, "caught" if rc == 1 else "missed" if rc == 0 else "harness-error", "%.0fs" % (time.time() - t0), flush=True)
+            if record:
+                meta["checks"]["%s/%s" % (pid, tier)] = {"verdict": "caught" if rc == 1 else "missed" if rc == 0 else "harness-error", "rc": rc,
+                                                         "wall_s": round(time.time() - t0, 1), "lines": [l[:300] for l in lines[:4]],
+                                                         "how": "patch applied to a scratch worktree of /repo HEAD, check run with VERIF_REPO pointing at it"}
             for l in lines[:3]:
                 print("   ", l[:300], flush=True)
             shutil.rmtree(os.path.join(VERIF, "replays", pid), ignore_errors=True)
@@ -113,6 +117,8 @@ def run_scratch(name, ids, tier):
         sh(["git", "-C", "/repo", "worktree", "remove", "--force", wt])
         shutil.rmtree(wt, ignore_errors=True)
         sh(["git", "-C", "/repo", "worktree", "prune"])
+    if record:
+        json.dump(meta, open(os.path.join(d, "meta.json"), "w"), indent=1)
     return 0
 
 
@@ -184,7 +190,10 @@ def main():
             i = a.index("--tier")
             tier = a[i + 1]
             del a[i:i + 2]
-        return run_scratch(a[1], a[2:], tier)
+        rec = "--record" in a
+        if rec:
+            a.remove("--record")
+        return run_scratch(a[1], a[2:], tier, rec)
     if a[0] == "table":
         return table()
 
